@@ -52,9 +52,10 @@ def regenerate(ctx):
         gen.main(C.SRC, os.path.join(C.COQ, "gen", "CmdLine.v"))
         return True
     except (gen.Unsupported, SyntaxError, OSError, KeyError, AttributeError, IndexError, TypeError) as e:
-        ctx.fail("translator gen/cmdline.py no longer recognises the tools' code: %s: %s" % (type(e).__name__, e),
-                 dict(correspondence="gen/cmdline.py -> coq/gen/CmdLine.v", error=str(e)), kind="tie", no_input=True)
-        return False
+        if not C.tie_fallback(ctx, "translator gen/cmdline.py no longer recognises the tools' code: %s: %s" % (type(e).__name__, e),
+                 dict(correspondence="gen/cmdline.py -> coq/gen/CmdLine.v", error=str(e)), kind="tie", no_input=True):
+            return False
+        return True
 
 
 # --------------------------------------------------------------------------- Coq terms
